@@ -24,7 +24,10 @@ func init() {
 			"NOT decided: exactly-once/in-order delivery over write histories, behaviour when the feed buffer is full.",
 		Rules: []ruleFn{c14R1, c14R2, c14R3, c14R4,
 			lockRuleFor("C14-R5", 20, []string{"database", "database/record"}, []string{}, map[string]string{}),
-			repoErrRuleFor("C14-R6", 14, func(c *Ctx, fn *ssa.Function) bool { p := short(fn.Pkg.Pkg.Path()); return p == "database" && (inFile(c, fn, "subscription.go") || inFile(c, fn, "hook.go") || inFile(c, fn, "hookbase.go") || inFile(c, fn, "controller.go")) }, map[string]string{}),
+			repoErrRuleFor("C14-R6", 14, func(c *Ctx, fn *ssa.Function) bool {
+				p := short(fn.Pkg.Pkg.Path())
+				return p == "database" && (inFile(c, fn, "subscription.go") || inFile(c, fn, "hook.go") || inFile(c, fn, "hookbase.go") || inFile(c, fn, "controller.go"))
+			}, map[string]string{}),
 			borrowRule(c03R5, "C03-R5", "C14-R7", 2, nil),
 			c14R8},
 	})
